@@ -654,7 +654,7 @@ func post(name string, b Body) Step { return Step{Kind: "post", Name: name, Body
 func rows() []row {
 	var rs []row
 	add := func(n string, s Step, pre ...Step) { rs = append(rs, row{name: n, step: s, pre: pre}) }
-	for i, p := range []string{"", "p1 p2", `x="a b" 'q' \z`, "l1\nl2", "c1\r\nc2\r", "café ü世", "-q --flag", `"`} {
+	for i, p := range []string{"", "p1 p2", `x="a b" 'q' \z`, "l1\nl2", "c1\r\nc2\r", "café ü世", "-q --flag", `"`, `"a b"`, `"`+"x\ny"} {
 		add(fmt.Sprintf("start/params%d", i), post("a", Body{Action: sp("start"), Params: p}))
 	}
 	add("stop", post("a", Body{Action: sp("stop")}))
